@@ -41,16 +41,26 @@ enum CallId : int {
   K_ACTION = 25,
   K_COEFFS_READ = 26,
   K_PART_CONST_OPS = 27,
-  K_NCALLS = 28
+  // value categories: sources that are rvalue (temporary / moved-from) views. A view never owns the
+  // memory it shows, so "moving from" one must leave that memory untouched.
+  K_ASSIGN_FROM_TEMP_VIEW = 28,   // mutating: m = Map<G>(src)            (writes the destination only)
+  K_VALUE_FROM_TEMP_VIEW = 29,    // non-mutating: value = Map<G>(region); value = std::move(view)
+  K_PART_TO_VALUE = 30,           // non-mutating: part value = m.part()   (rvalue sub-part view of a mutable view)
+  K_PART_FROM_TEMP_VIEW = 31,     // mutating: m.part() = Map<P>(src part) (writes the destination part only)
+  K_NCALLS = 32
 };
 
 inline const char* const kCallNames[K_NCALLS] = {
   "setIdentity", "assign_from", "mul_assign", "plus_assign", "coeffs_write_one", "data_write_one", "coeffs_assign_all",
   "copy_view_setIdentity", "map_assign_map", "part_assign", "part_reset", "part_update", "part_raw_write", "construct_into",
   "inverse", "log", "Ad", "matrix", "compose", "rminus", "rplus", "isApprox", "to_value", "cast", "part_read", "action",
-  "coeffs_read", "part_const_ops"};
+  "coeffs_read", "part_const_ops", "assign_from_temp_view", "value_from_temp_view", "part_to_value", "part_from_temp_view"};
 
-inline bool call_mutates(int id) { return id <= K_CONSTRUCT_INTO; }
+inline bool call_mutates(int id) { return id <= K_CONSTRUCT_INTO || id == K_ASSIGN_FROM_TEMP_VIEW || id == K_PART_FROM_TEMP_VIEW; }
+inline bool call_uses_part(int id) {
+  return (id >= K_PART_ASSIGN && id <= K_PART_RAW_WRITE) || id == K_PART_READ || id == K_PART_CONST_OPS || id == K_PART_TO_VALUE ||
+         id == K_PART_FROM_TEMP_VIEW;
+}
 
 struct Call {
   int client;
